@@ -944,3 +944,11 @@ SPECS += [
     ("C16", "mark-not-restored", "rope/refactor/importutils/module_imports.py",
      remove_stmt_where("ModuleImports.get_changed_source", stmt_is("if self.pymodule.source_code.startswith(_BOM)")), ["R16.15"]),
 ]
+
+# nested calls of the changed function (fix 06543b9)
+SPECS += [
+    ("C06", "occurrences-rewritten-first-to-last", "rope/refactor/change_signature.py",
+     replace_expr_where("_ChangeCallsInModule.get_changed_module", _is("reversed(occurrences)"), _expr("occurrences")), ["R06.17"]),
+    ("C06", "changer-reads-the-original-text", "rope/refactor/change_signature.py",
+     replace_expr_where("_ChangeCallsInModule.get_changed_module", _is("source[start:end_parens]"), _expr("self.source[start:end_parens]")), ["R06.17"]),
+]
